@@ -546,6 +546,11 @@ class BaseName:
             # Probably a builtin module, just ignore in that case.
             return ''
 
+        if self._name.start_pos is None:
+            # Names without a position in the code (e.g. module attributes
+            # like ``__doc__`` or values created from literals).
+            return ''
+
         index = self._name.start_pos[0] - 1
         start_index = max(index - before, 0)
         return ''.join(lines[start_index:index + after + 1])
